@@ -134,12 +134,27 @@ def check_run(case, comp, preds, world, calls, execs, res, R):
     if got != exp:
       V('iteration-shape', 'compiled', 'iteration %s: members ran %s, declared %s x %d' % (
           k, got[:30], present, reps))
-  for (t, fin), n in per.items():
-    if t in member_of and not fin:
-      continue
-    if n != 1:
-      V('exactly-once', 'compiled', '%s statement of %s was run %d times' % (
-          'final' if fin else 'table', t, n))
+  # exactly once, counted per statement TEXT: two predicates may compile to the very same SQL
+  # (P(1) :- Body and Q(1) :- P(x) after injection), and then that text must run twice
+  finals_set = set(preds)
+  merged = {}
+  for e in execs:
+    for t, sql in e.table_to_export_map.items():
+      name = t if (t == e.main_predicate or t not in finals_set) else '\u2913' + t
+      merged[name] = (e.PredicateSpecificPreamble(e.main_predicate) + sql, name in finals_set and t == e.main_predicate)
+  expected = Counter()
+  for name, (text_, fin) in merged.items():
+    base = name.lstrip('\u2913')
+    reps = 1
+    if base in member_of and not fin:
+      reps = max(iterations[member_of[base]]['repetitions'], 1)
+    expected[(text_, fin)] += reps
+  observed = Counter((c['sql'], c['is_final']) for c in calls if c['preds'])
+  for key_ in set(expected) | set(observed):
+    if expected[key_] != observed[key_]:
+      who = sorted(n for n, (tx, fn) in merged.items() if (tx, fn) == key_)
+      V('exactly-once', 'compiled', '%s statement of %s was run %d times, expected %d' % (
+          'final' if key_[1] else 'table', who, observed[key_], expected[key_]))
   # final predicates: exactly one final call each
   finals = [c for c in calls if c['is_final']]
   if len(finals) != len(preds):
